@@ -1,6 +1,7 @@
 package main
 
 import (
+	"go/types"
 	"go/token"
 	"strings"
 
@@ -28,6 +29,8 @@ func init() {
 			{"C18-R4", "one renewal per certificate", c18r4},
 			{"C18-R5", "root change is announced", c18r5},
 			{"C18-R6", "secretCache lock discipline", c18r6},
+			{"C18-R7", "the renewal is scheduled with the computed rotation delay", c18r7},
+			{"C18-R8", "every connected stream is told about every secret event", c18r8},
 		},
 	})
 }
@@ -306,4 +309,79 @@ func c18r6(c *Ctx) {
 		Exempt: map[string]string{},
 	})
 	c.Floor(5)
+}
+
+
+// C18-R7: rotateTime places the renewal inside the certificate's validity (before NotAfter by the grace period). The
+// delay handed to the delayed queue in registerSecret is that value itself: anything applied to it afterwards (a lower
+// bound against "spinning", rounding up) can move the renewal past the expiry of a short-lived or late-delivered
+// certificate, which is then served from the cache after it expired.
+func c18r7(c *Ctx) {
+	p := c.P
+	fn := p.Func(pkgNACache, "SecretManagerClient", "registerSecret")
+	rt := p.Var(pkgNACache, "rotateTime")
+	var computed ssa.Value
+	eachInstr(fn, func(ins ssa.Instruction) {
+		call, ok := ins.(*ssa.Call)
+		if !ok {
+			return
+		}
+		if u, ok := call.Call.Value.(*ssa.UnOp); ok {
+			if g, ok := u.X.(*ssa.Global); ok && g.Object() == types.Object(rt) {
+				computed = call
+			}
+		}
+	})
+	c.Check("registerSecret computes the delay with rotateTime", fn.Pos(), computed != nil, "no call through the rotateTime variable found")
+	n := 0
+	eachInstr(fn, func(ins ssa.Instruction) {
+		ci, ok := ins.(ssa.CallInstruction)
+		if !ok {
+			return
+		}
+		name := ""
+		if ci.Common().IsInvoke() {
+			name = ci.Common().Method.Name()
+		} else if o := calleeObj(ins); o != nil {
+			name = o.Name()
+		}
+		if name != "PushDelayed" {
+			return
+		}
+		n++
+		args := ci.Common().Args
+		d := args[len(args)-1]
+		c.Check("the delay scheduled is the one rotateTime computed", ins.Pos(), computed != nil && d == computed,
+			"the delay passed to PushDelayed is not the value rotateTime returned ("+d.String()+"): a transformation of it (e.g. a minimum delay) can schedule the renewal after the certificate's NotAfter; until then GenerateSecret keeps serving the expired certificate from the cache")
+	})
+	c.Check("registerSecret schedules the renewal", fn.Pos(), n == 1, "expected one PushDelayed call")
+	c.Floor(3)
+}
+
+// C18-R8: sdsservice.push fans a secret event (a secret NAME: default / ROOTCA / a file cert) out to every connected
+// stream. Inside the loop over the clients every iteration hands the name on (starts the sender goroutine): an iteration
+// that can skip it - e.g. because "a push is already queued for this connection" - drops the event for that stream,
+// and since events carry different names the stream never regenerates that secret.
+func c18r8(c *Ctx) {
+	p := c.P
+	fn := p.Func("security/pkg/nodeagent/sds", "sdsservice", "push")
+	clientsF := p.Field("security/pkg/nodeagent/sds", "sdsservice", "clients")
+	n := 0
+	for _, l := range rangeLoops(fn) {
+		if l.Over == nil || fieldOfLoad(l.Over) != clientsF {
+			continue
+		}
+		n++
+		isGo := func(ins ssa.Instruction) bool { _, ok := ins.(*ssa.Go); return ok }
+		isSend := func(ins ssa.Instruction) bool { _, ok := ins.(*ssa.Send); return ok }
+		bad, found := pathAvoidingE(l.Body, nil, func(i ssa.Instruction) bool { return isGo(i) || isSend(i) }, nil, nil, l.Header)
+		pos := fn.Pos()
+		if bad != nil {
+			pos = bad.Pos()
+		}
+		c.Check("every client in the loop is handed the secret name", pos, !found,
+			"an iteration over the connected streams can finish without starting the sender for that stream: the event (a specific secret name) is dropped for it, and a following event for another name does not make up for it - e.g. after a trust-bundle update the workload stream never hears about `default`, no rotation task is left, and Envoy's certificate is never renewed")
+	}
+	c.Check("push loops over the connected clients", fn.Pos(), n == 1, "no loop over sdsservice.clients in push")
+	c.Floor(2)
 }
